@@ -65,6 +65,8 @@ func (m *Model) RemoveChildByName(name string, opts ...resource.WriteOption) (*t
 // If no child with the given name is already know, one will be created.
 // If a child is already known with the given name, its traits will be unioned with the given trait names.
 func (m *Model) AddChildTrait(name string, traitName ...trait.Name) (child *traits.Child, created bool) {
+retry:
+	created = false
 	msg, err := m.children.Update(name, &traits.Child{Name: name},
 		resource.WithCreateIfAbsent(),
 		resource.WithCreatedCallback(func() {
@@ -76,6 +78,9 @@ func (m *Model) AddChildTrait(name string, traitName ...trait.Name) (child *trai
 			// work on a copy: the old message (and every copy of it handed out earlier) shares this slice
 			newChild.Traits = traitUnion(append([]*traits.Trait(nil), oldChild.Traits...), traitName...)
 		}))
+	if status.Code(err) == codes.Aborted {
+		goto retry // another writer changed this child meanwhile: do it again on what is stored now
+	}
 	if err != nil {
 		panic(err) // shouldn't happen
 	}
@@ -85,6 +90,7 @@ func (m *Model) AddChildTrait(name string, traitName ...trait.Name) (child *trai
 // RemoveChildTrait ensures that the named child no longer mentions they support the given trait names.
 // If no child exists with the given name then nil will be returned.
 func (m *Model) RemoveChildTrait(name string, traitName ...trait.Name) *traits.Child {
+retry:
 	msg, err := m.children.Update(name, &traits.Child{Name: name},
 		resource.InterceptBefore(func(old, value proto.Message) {
 			oldChild := old.(*traits.Child)
@@ -96,6 +102,8 @@ func (m *Model) RemoveChildTrait(name string, traitName ...trait.Name) *traits.C
 		switch status.Code(err) {
 		case codes.NotFound:
 			return nil
+		case codes.Aborted:
+			goto retry // another writer changed this child meanwhile: do it again on what is stored now
 		}
 		panic(err) // NotFound is the only error we expect
 	}
